@@ -82,10 +82,13 @@ CLAIMS = {
          "Decides structural preconditions of e2fsck acceptance (the external checker is not run by the check): group-descriptor and superblock changes and bitmap-checksum refreshes are flushed by writeGDT/writeSuperblock before every success return of the public API; the three checksummed encoders store nothing after the checksum; every Set/Clear/IsSet on an on-disk bitmap uses ino-ipg*g-1 resp. block-(firstDataBlock+g*bpg) and group numbers are (ino-1)/ipg resp. (block-firstDataBlock)/bpg; free-block counters change by block counts, never inode.blocks; superblock, group descriptor, inode and directory-entry encoders and parsers agree byte by byte; Remove marks the removed inode deleted and writes it. Four defects in Remove/blockGroupForBlock were repaired and demonstrated with e2fsck. Layout at mkfs time (an incorrect resize-inode size with non-default BlocksPerGroup was observed and is not covered), link counts, extent-tree metadata blocks, directory packing and the state after a refused operation are not decided.",
          "Assumes a range loop that flushes per element runs at least once when something was dirtied (collections filled alongside), that incrGD* helpers are the flush points for preceding bitmap writes, and that in-package callees that never mention io.EOF cannot return it.",
          "DESIGN.md §4 C05"),
+ "C20": ("dominance of nil tests over interface method calls on the extent tree of inodes decoded from the image",
+         "Decides one structural necessary condition of 'an image using a feature the library does not support is refused or the affected file fails with an error': an inode decoded from the image has no extent tree when it maps blocks the ext2/ext3 way (mke2fs without the extent feature), is a symlink stored in the inode or a special file, and every method call on inode.extents of such an inode (readInode / inodeFromBytes results; 6 sites) is dominated by a nil test. One defect was repaired (ReadDir/ReadFile/ReadLink on an mke2fs -O ^extent image panicked). That decoded trees, contents and attributes equal what e2fsprogs wrote (hashed directories, interior extent nodes, holes, xattrs) is NOT decided: it needs the reference implementation as an oracle.",
+         "Inodes reaching a use through a parameter or a File handle are covered only at the point where they were decoded.",
+         "DESIGN.md §4 C20"),
 }
 
 NOT_APPLICABLE = {
- "C20": "agreement with an external reference implementation (mke2fs/debugfs) on reader-only code paths; no encoder/decoder pair, specification or oracle exists in the source for a static rule to compare against (DESIGN.md §5)",
 }
 
 PENDING = "static check not built yet (see DESIGN.md §8 build order); not claimed"
